@@ -304,8 +304,24 @@ func child(spec Spec, body func(c *Ctx)) {
 		defer os.RemoveAll(scratch)
 		body(c)
 	}()
-	// write result
+	c.flush()
+	os.Exit(0)
+}
+
+// FlushAndExit writes this shard's results and ends the process immediately. Used when the code under test has
+// left goroutines blocked forever (a deadlock that was already recorded as a violation), so that the enclosing
+// synctest bubble could never be left in an orderly way.
+func (c *Ctx) FlushAndExit() {
+	c.NotExhaustive("shard stopped early after an unrecoverable deadlock in the code under test")
+	os.RemoveAll(c.Scratch)
+	c.flush()
+	os.Exit(0)
+}
+
+func (c *Ctx) flush() {
 	out := os.Getenv("VERIF_OUT")
+	c.mu.Lock()
+	defer c.mu.Unlock()
 	c.res.Counters = map[string]int64{}
 	for k, v := range c.counters {
 		c.res.Counters[k] = v.Load()
@@ -332,7 +348,6 @@ func child(spec Spec, body func(c *Ctx)) {
 		fmt.Fprintln(os.Stderr, "write result:", err)
 		os.Exit(2)
 	}
-	os.Exit(0)
 }
 
 type knownFile struct {
